@@ -722,6 +722,59 @@ def rebuild(e, f):
 _subst_memo = {}
 
 
+def _signed_interval(atom, truth):
+    """the signed interval of v on which the atom (v pred const) has the given truth value; None if not of that shape or
+    not an interval (ne true / eq false)"""
+    if not (isinstance(atom, tuple) and atom[0] == "icmp" and is_c(atom[4]) and not is_c(atom[3])):
+        return None
+    b = _bits(atom[2])
+    if not b or b < 2:
+        return None
+    lo, hi, k = -(1 << (b - 1)), (1 << (b - 1)) - 1, sval(atom[4])
+    p = atom[1]
+    if not truth:
+        p = {"slt": "sge", "sge": "slt", "sgt": "sle", "sle": "sgt", "eq": "ne", "ne": "eq"}.get(p)
+    if p == "slt":
+        return (lo, k - 1)
+    if p == "sle":
+        return (lo, k)
+    if p == "sgt":
+        return (k + 1, hi)
+    if p == "sge":
+        return (k, hi)
+    if p == "eq":
+        return (k, k)
+    return None
+
+
+def _implied_atom(e, X, K):
+    """e and X are comparisons of the same value with constants and X is known to be K: e is decided, or narrows to an
+    equality, when the two signed intervals are nested, disjoint or meet in one point"""
+    if not (is_c(K) and K[1] == 1 and isinstance(X, tuple) and X[0] == "icmp" and e[0] == "icmp" and e[3] == X[3] and e[2] == X[2] and e is not X):
+        return None
+    known = _signed_interval(X, bool(K[2]))
+    if known is None or known[0] > known[1]:
+        return None
+    te, fe = _signed_interval(e, True), _signed_interval(e, False)
+    if te is not None:
+        lo, hi = max(known[0], te[0]), min(known[1], te[1])
+        if lo > hi:
+            return C(1, 0)
+        if lo == known[0] and hi == known[1]:
+            return C(1, 1)
+        if lo == hi and e[1] != "eq":
+            return mk_icmp("eq", e[2], e[3], C(_bits(e[2]), lo))
+    if fe is not None:
+        lo, hi = max(known[0], fe[0]), min(known[1], fe[1])
+        if lo > hi:
+            return C(1, 1)
+        if lo == known[0] and hi == known[1]:
+            return C(1, 0)
+        if lo == hi and e[1] != "ne":
+            return mk_icmp("ne", e[2], e[3], C(_bits(e[2]), lo))
+    return None
+
+
 def subst(e, X, K):
     if e == X:
         return K
@@ -732,6 +785,9 @@ def subst(e, X, K):
     if t == "op":
         return mk_bin(e[1], e[2], subst(e[3], X, K), subst(e[4], X, K))
     if t == "icmp":
+        imp = _implied_atom(e, X, K)
+        if imp is not None:
+            return imp
         return mk_icmp(e[1], e[2], subst(e[3], X, K), subst(e[4], X, K))
     if t == "icmpx":
         (k1, t1, a1), (k2, t2, a2) = e[2], e[3]
